@@ -10,7 +10,7 @@
    value that a later variant's type contains.  Default-mode completeness and payload identity
    are otherwise tied by the differential run against an independent type oracle. *)
 From Coq Require Import ZArith List Bool Arith.
-From KV Require Import Base.PyVal Base.Prims Model.Validator Model.Sem Model.Derive Proofs.DeriveP Proofs.DeriveR Proofs.DeriveC Proofs.Agree Corr.UserLib.
+From KV Require Import Base.PyVal Base.Prims Model.Validator Model.Sem Model.Derive Proofs.DeriveP Proofs.DeriveR Proofs.DeriveC Proofs.DeriveD Proofs.Agree Corr.UserLib.
 Import ListNotations.
 
 (* Valid(w) only if w is a value of the annotated type - for EVERY annotation of the grammar
@@ -76,6 +76,40 @@ Proof.
 Qed.
 Print Assumptions C07_complete_signature_mode_async.
 
+(* default mode (coercing validators), on the fragment where no coerced value is ever hashed
+   ([dplain]: [cplain], and the member type of every Set and the key type of every Dict is [rigid] -
+   nothing below it is coerced; the finding below is exactly a violation of that side condition):
+   every well-formed value gets a normal answer, every value of the annotated type is accepted, and
+   the payload is that very value wherever no earlier union variant could have coerced it
+   ([dident]: unions of rigid variants and Optional[T] for any T; tuples from lists, Decimal / UUID /
+   date / datetime from strings and records from mappings do not disturb a value that already has
+   the type). *)
+Theorem C07_complete_default_partial :
+  forall (E : env) a, dplain E a = true ->
+    forall v, derive false a = Ok v ->
+    forall n x, (aheight a < n)%nat -> hproper E x = true ->
+      normal (run E Sync n v x) = true /\
+      (has_type a x = true ->
+       exists w, run E Sync n v x = OValid w /\ (dident a = true -> w = x)).
+Proof. exact derive_complete_default. Qed.
+Print Assumptions C07_complete_default_partial.
+
+Corollary C07_complete_default_async :
+  forall (E : env), user_coherent E ->
+    forall a, dplain E a = true -> forall v, derive false a = Ok v ->
+    forall n x, (aheight a < n)%nat -> hproper E x = true ->
+      run E Async n v x = run E Sync n v x.
+Proof.
+  intros E Hu a Hc v Hd n x Hn Hp. destruct (derive_complete_default E a Hc v Hd n x Hn Hp) as [N _].
+  pose proof (run_agree E (uapred E) (uaobj E) Hu n v x N) as R. destruct E; exact R.
+Qed.
+Print Assumptions C07_complete_default_async.
+
+(* where nothing is coerced the two resolution modes derive the same validator *)
+Theorem C07_rigid_modes_coincide : forall a, rigid a = true -> derive false a = derive true a.
+Proof. exact rigid_derive. Qed.
+Print Assumptions C07_rigid_modes_coincide.
+
 (* default mode: {"sNaN"} is a Set[str], yet Union[Set[Decimal], Set[str]] raises on it - the
    Decimal variant coerces the member to Decimal('sNaN'), which cannot be hashed into the payload set *)
 Section Refuted.
@@ -139,3 +173,33 @@ Section Example2.
     split; [vm_compute; reflexivity|]. eexists. vm_compute. reflexivity.
   Qed.
 End Example2.
+
+(* default mode, non-vacuity: Optional[Decimal], a list of (int, Decimal) pairs written as lists, and a
+   dataclass holding both, given as an instance (returned unchanged) and as a mapping (coerced) *)
+Section Example3.
+  Open Scope Z_scope.
+  Definition d1 := VDecimal (DFin false 1 0).
+  Definition E2 : env :=
+    mk_env [Build_cls (CkData false) false [(sa, None); (sb, Some VNone)]] []
+           [(OkDecimal, (VStr [49], Some d1))] [] [] [].
+  Definition OD := AUnion [AScalar KDecimal; ANone].
+  Definition DC3 := ARecord RkData 0%nat
+      [(sa, (AList (ATupleN [AScalar KInt; AScalar KDecimal]), true)); (sb, (OD, false))].
+  Definition inst3 := VObj 0%nat [(sa, VList [VTuple [VInt 1; d1]]); (sb, VNone)].
+  Example C07_nonvacuous_default :
+    dplain E2 DC3 = true /\ dident DC3 = true /\ rigid DC3 = false /\
+    hproper E2 inst3 = true /\ has_type DC3 inst3 = true /\
+    exists v, derive false DC3 = Ok v /\ (aheight DC3 < 6)%nat /\
+              run E2 Sync 6 v inst3 = OValid inst3 /\
+              run E2 Sync 6 v (VDict [(sa, VList [VList [VInt 1; VStr [49]]])]) = OValid inst3 /\
+              (exists i, run E2 Sync 6 v (VDict [(sa, VList [VList [VInt 1; VNone]])]) = OInvalid i).
+  Proof.
+    split; [vm_compute; reflexivity|]. split; [vm_compute; reflexivity|]. split; [vm_compute; reflexivity|].
+    split; [vm_compute; reflexivity|]. split; [vm_compute; reflexivity|].
+    eexists. split; [vm_compute; reflexivity|]. split; [apply Nat.ltb_lt; vm_compute; reflexivity|].
+    split; [vm_compute; reflexivity|]. split; [vm_compute; reflexivity|]. eexists. vm_compute. reflexivity.
+  Qed.
+  (* the refuted annotation lies outside the fragment for exactly the reason it fails *)
+  Example C07_refuted_outside_fragment : dplain E_snan U = false.
+  Proof. vm_compute. reflexivity. Qed.
+End Example3.
